@@ -5,10 +5,12 @@ C12 driver.  Requests:
 
   revert <keepWhenNoBasis> <changed> <wtKind f|d|l|~> <backups> <tkind> <tversioned> <mmIsWt> <basisPresent> <basisIsWt>
       -> kept | backup | gone
-  remove <keep> <force> <role s|n> <inBasis> <changed>          -> kept | backup | gone
+  remove <backupUnversioned> <keep> <force> <role s|n> <wtVersioned> <inBasis> <changed>   -> kept | backup | gone
   backup <base> <taken names joined by , or ->                  -> the name | ~
   merge <thisChanged> <otherChanged> <otherDeleted> <sameChange> <textConflict>  -> kept | helper | merged | gone
   mm <otherChangedContent> <otherAdded> <onlyMoved>             -> recorded | absent   (merge-hashes after a merge-like command)
+  dirbackup <name> <new> <n1=c1,n2=c2,… or ->                    -> the listing after backupAndReplace, n=c joined by , | ~
+  dirrename <name> <n1=c1,n2=c2,… or ->                          -> the listing after renameToBackup | ~
 (booleans are T/F)
 -/
 namespace BreezyVerif.C12
@@ -20,6 +22,13 @@ def parseKind (s : String) : Option (Option Kind) :=
 def Fate.show : Fate → String
   | .kept => "kept" | .backup => "backup" | .helper => "helper" | .merged => "merged" | .gone => "gone"
 
+def parseEntries (s : String) : Option (Listing String) :=
+  (splitList s).mapM (fun e => match e.splitOn "=" with
+    | [n, c] => some (n, c)
+    | _ => none)
+
+def showEntries (d : Listing String) : String := joinList (d.map (fun e => e.1 ++ "=" ++ e.2))
+
 def handle : List String → String
   | ["revert", fl, ch, wk, bk, tk, tv, mm, bp, bi] =>
     match parseBool fl, parseBool ch, parseKind wk, parseBool bk, parseKind tk, parseBool tv, parseBool mm, parseBool bp, parseBool bi with
@@ -28,12 +37,13 @@ def handle : List String → String
         { changedContent := ch, wtKind := wk, backups := bk, targetKind := tk, targetVersioned := tv,
           mergeModifiedIsWt := mm, basisPresent := bp, basisIsWt := bi }).show
     | _, _, _, _, _, _, _, _, _ => "bad-op"
-  | ["remove", k, f, r, ib, ch] =>
-    match parseBool k, parseBool f, (if r == "s" then some Role.selected else if r == "n" then some Role.nestedUnversioned else none),
-          parseBool ib, parseBool ch with
-    | some k, some f, some r, some ib, some ch =>
-      (removeFate { keep := k, force := f, role := r, inBasis := ib, changedContent := ch }).show
-    | _, _, _, _, _ => "bad-op"
+  | ["remove", v, k, f, r, wv, ib, ch] =>
+    match parseBool v, parseBool k, parseBool f, (if r == "s" then some Role.selected else if r == "n" then some Role.nestedUnversioned else none),
+          parseBool wv, parseBool ib, parseBool ch with
+    | some v, some k, some f, some r, some wv, some ib, some ch =>
+      (removeFateV { backupUnversioned := v }
+        { keep := k, force := f, role := r, wtVersioned := wv, inBasis := ib, changedContent := ch }).show
+    | _, _, _, _, _, _, _ => "bad-op"
   | ["backup", base, taken] =>
     match availableBackupName base (splitList taken) with
     | some n => n
@@ -48,6 +58,14 @@ def handle : List String → String
     | some a, some b, some c =>
       if mergeRecords { otherChangedContent := a, otherAdded := b, onlyMoved := c } then "recorded" else "absent"
     | _, _, _ => "bad-op"
+  | ["dirbackup", name, new, entries] =>
+    match parseEntries entries with
+    | some d => (match backupAndReplace d name new with | some d' => showEntries d' | none => "~")
+    | none => "bad-op"
+  | ["dirrename", name, entries] =>
+    match parseEntries entries with
+    | some d => (match renameToBackup d name with | some r => showEntries r.2 | none => "~")
+    | none => "bad-op"
   | _ => "bad-op"
 
 end BreezyVerif.C12
